@@ -38,6 +38,9 @@ func (t *translator) methodDecl(name string) *ast.FuncDecl {
 
 // callsOf: does n contain a call of key; pathTo: the ancestors of the first such call.
 func (t *translator) pathTo(root ast.Node, key string) []ast.Node {
+	if p, ext := t.pathToSel(root, key); ext { // segstate.go: "key#n", "var:name"
+		return p
+	}
 	var stack, found []ast.Node
 	ast.Inspect(root, func(n ast.Node) bool {
 		if n == nil {
@@ -97,6 +100,9 @@ func (t *translator) segment(sg Segment) (string, string) {
 			ft.declare(t.info.Defs[id])
 		}
 	}
+	ft.setupSegState(sg) // segstate.go
+	segBody = fd.Body
+	defer func() { segBody = nil }()
 	var pstack []ast.Node
 	ast.Inspect(fd, func(n ast.Node) bool {
 		if n == nil {
@@ -111,7 +117,7 @@ func (t *translator) segment(sg Segment) (string, string) {
 	})
 	checkErrs := func(lo, hi token.Pos) {
 		for _, te := range t.terrs {
-			if te.Pos >= lo && te.Pos < hi {
+			if te.Pos >= lo && te.Pos < hi && !inPruned(te.Pos) {
 				t.fail(nil, "%s: in segment %s of %s: not in the supported subset (type checker: %s)", t.fset.Position(te.Pos), sg.Name, sg.Func, te.Msg)
 			}
 		}
@@ -125,7 +131,7 @@ func (t *translator) segment(sg Segment) (string, string) {
 			if ft.closureOf(v) != nil {
 				continue // a local function constant: inlined at its calls
 			}
-			if _, isPtr := types.Unalias(v.Type()).Underlying().(*types.Pointer); isPtr {
+			if _, isPtr := types.Unalias(v.Type()).Underlying().(*types.Pointer); isPtr && !ft.segStateVar(v) && !t.isNullable(v.Type()) { // segstate.go: a state variable is passed by value
 				if ft.readOnlyPointer(v, nodes...) == 0 {
 					continue // only the base of input calls (c.now()): not read
 				}
@@ -155,6 +161,12 @@ func (t *translator) segment(sg Segment) (string, string) {
 		}
 	}
 
+	if sg.Args != "" { // segstate.go
+		if sg.Cond != "" || sg.In != "" || sg.After != "" || sg.From != "" || sg.Before != "" || sg.Through != "" {
+			t.fail(fd, "segment %s of %s: Args excludes the other selectors", sg.Name, sg.Func)
+		}
+		return t.segmentArgs(sg, ft, key, func(nodes ...ast.Node) []string { return params(token.NoPos, token.NoPos, nodes...) }, fuelOf, checkErrs)
+	}
 	if sg.Cond != "" {
 		if sg.In != "" || sg.After != "" || sg.From != "" || sg.Before != "" || sg.Through != "" {
 			t.fail(fd, "segment %s of %s: Cond excludes the other selectors", sg.Name, sg.Func)
@@ -172,6 +184,7 @@ func (t *translator) segment(sg Segment) (string, string) {
 		if ifs == nil {
 			t.fail(fd, "segment %s: the call of %s in %s is not in a branch of an if statement", sg.Name, sg.Cond, sg.Func)
 		}
+		defer t.pruneOracles(ifs.Cond)() // segstate.go
 		checkErrs(ifs.Cond.Pos(), ifs.Cond.End())
 		ft.root = &ast.ExprStmt{X: ifs.Cond}
 		fuelOf(ifs.Cond)
@@ -193,17 +206,23 @@ func (t *translator) segment(sg Segment) (string, string) {
 		}
 	}
 	list := fd.Body.List
-	inLoop := false
+	inLoop, inLit := false, false
 	if blockOf != "" {
 		path := t.pathTo(fd.Body, blockOf)
 		if path == nil {
 			t.fail(fd, "segment %s: no call of %s in %s", sg.Name, blockOf, sg.Func)
 		}
 		found := false
+		up := sg.Up // segstate.go
+	scan:
 		for i := len(path) - 1; i >= 0; i-- {
 			if !found {
 				if l, ok := stmtList(path[i]); ok && i+1 < len(path) {
 					if _, isStmt := path[i+1].(ast.Stmt); isStmt {
+						if up > 0 {
+							up--
+							continue
+						}
 						list, found = l, true
 					}
 				}
@@ -213,7 +232,8 @@ func (t *translator) segment(sg Segment) (string, string) {
 			case *ast.ForStmt, *ast.RangeStmt:
 				inLoop = true
 			case *ast.FuncLit:
-				t.fail(path[i], "segment %s: the call of %s lies inside a function literal", sg.Name, blockOf)
+				inLit = true // segstate.go: allowed when the segment contains no return statement
+				break scan
 			}
 		}
 		if !found {
@@ -257,7 +277,13 @@ func (t *translator) segment(sg Segment) (string, string) {
 	if len(seg) == 0 {
 		t.fail(fd, "segment %s of %s is empty", sg.Name, sg.Func)
 	}
+	if inLit {
+		t.noReturnIn(sg, seg) // segstate.go
+	}
 	lo, hi := seg[0].Pos(), seg[len(seg)-1].End()
+	for _, st := range seg {
+		defer t.pruneOracles(st)() // segstate.go
+	}
 	checkErrs(lo, hi)
 	ft.root = &ast.BlockStmt{List: seg}
 	var segN, restN []ast.Node
@@ -312,6 +338,10 @@ func (ft *funcTr) readOnlyPointer(v *types.Var, nodes ...ast.Node) (reads int) {
 		ast.Inspect(n, func(n ast.Node) bool {
 			id, ok := n.(*ast.Ident)
 			if !ok || ft.t.info.Uses[id] != types.Object(v) {
+				return true
+			}
+			if ft.segPtrUseOK(id) {
+				reads++ // segstate.go
 				return true
 			}
 			if sel, ok := ft.parents[id].(*ast.SelectorExpr); ok && sel.X == ast.Expr(id) {
